@@ -17,6 +17,7 @@ include!("mods.rs");
 mod registry;
 mod defrag_hist;
 mod ext_search;
+mod standins;
 
 fn parse_vals(s: &str) -> (String, Vec<Vec<u8>>) {
     // minimal JSON reader for {"harness": "...", "vals": [[..],[..]]}
@@ -56,6 +57,21 @@ fn main() {
         match defrag_hist::search(depth) {
             Some((ops, d)) => println!("{{\"outcome\": \"violation\", \"detail\": \"{}\", \"defrag_history\": {}}}", esc(&d), defrag_hist::ops_to_json(&ops)),
             None => println!("{{\"outcome\": \"not-reproduced\", \"detail\": \"no diverging history of length <= {} over the witness alphabet\"}}", depth),
+        }
+        return;
+    }
+    if inp.contains("\"names_check\"") {
+        match standins::check_all_names() {
+            Some(d) => println!("{{\"outcome\": \"violation\", \"detail\": \"{}\"}}", esc(&d)),
+            None => println!("{{\"outcome\": \"ok\", \"detail\": \"every value of every registry newtype prints its constant name or a numeric fallback containing the value\"}}"),
+        }
+        return;
+    }
+    if inp.contains("\"cipher_names_check\"") {
+        let (n, r) = standins::check_cipher_names();
+        match r {
+            Some(d) => println!("{{\"outcome\": \"violation\", \"detail\": \"{}\", \"tried\": {}}}", esc(&d), n),
+            None => println!("{{\"outcome\": \"ok\", \"detail\": \"by-name lookup correct on {} strings (listed names + perturbations)\", \"tried\": {}}}", n, n),
         }
         return;
     }
